@@ -96,6 +96,7 @@ type TxSpec struct {
 	Signer *Account
 	Msgs   []sdk.Msg
 	Raw    []byte // pre-built tx bytes (optional)
+	OnResult func(code uint32) // called after the block with the tx result code
 }
 
 type TxResult struct {
@@ -481,7 +482,15 @@ func (c *Chain) ProduceBlock(txs []TxSpec, dt int64, absent map[string]bool) *Bl
 		ProposerAddress: c.Vals.Proposer.Address,
 	}
 	w.net.collect(c, res, br)
+	for i := range txs {
+		if txs[i].OnResult != nil && i < len(br.Txs) {
+			txs[i].OnResult(br.Txs[i].Code)
+		}
+	}
 	w.rec.blockEvents(c, txs, br)
+	if c.IsProv {
+		w.registerCreatedValidators()
+	}
 	return br
 }
 
